@@ -287,7 +287,74 @@ fn to_radix_values(r: &mut Rng, n: usize, radix: u32, count: usize) -> Vec<B> {
         }
     }
     v.push(gen::pow2(n, r.below((8 * n) as u64) as usize));
+    if radix >= 2 && radix <= 256 {
+        let rb = gen::fit(&gen::trim(gen::small(8, radix as u64)), n);
+        // exact powers radix^j at the chunk sizes of every digit type: the largest power fitting a digit and half a digit
+        // (for 8/16/32/64/128-bit chunks), their doubles, and one random exponent
+        let mut js: Vec<u32> = Vec::new();
+        for bits in [4u32, 8, 16, 32, 64, 128] {
+            let mut p: u128 = 1;
+            let mut j = 0u32;
+            while p.checked_mul(radix as u128).map_or(false, |q| bits == 128 || q < (1u128 << bits)) {
+                p *= radix as u128;
+                j += 1;
+            }
+            js.extend([j, 2 * j, j + 1, 3 * j]);
+        }
+        js.push(1 + r.below((8 * n) as u64) as u32);
+        js.sort();
+        js.dedup();
+        if count < 30 {
+            // quick tier: a random third of the exponents per (type, radix)
+            js.retain(|_| r.below(3) == 0);
+        }
+        for j in js {
+            if j == 0 || j > 1200 {
+                continue;
+            }
+            let (p, ov) = gen::upow(&rb, j, n);
+            if !ov {
+                v.push(p.clone());
+                v.push(gen::add1(&p));
+                v.push(gen::sub1(&p));
+                // a small multiple: a * radix^j
+                let prod = gen::umul(&gen::trim(p.clone()), &gen::trim(gen::small(n.max(2), 1 + r.below(radix as u64 - 1).max(1))));
+                if gen::trim(prod.clone()).len() <= n {
+                    v.push(gen::fit(&gen::trim(prod), n));
+                }
+            }
+        }
+        // a digit equal to the chunk base radix^power sitting above other digits (quotient-digit == divisor ties)
+        for g in [1usize, 2, 4, 8] {
+            if 2 * g > n {
+                continue;
+            }
+            for half in [true, false] {
+                let bits = if half { 4 * g as u32 } else { 8 * g as u32 };
+                let mut p: u128 = 1;
+                while p.checked_mul(radix as u128).map_or(false, |q| q < (1u128 << bits)) {
+                    p *= radix as u128;
+                }
+                let k = 1 + r.below((n / g - 1) as u64) as usize; // digit position >= 1
+                let mut x = gen::random(r, n);
+                for b in x.iter_mut().skip(k * g) {
+                    *b = 0;
+                }
+                let pb = p.to_le_bytes();
+                for t in 0..g {
+                    x[k * g + t] = pb[t];
+                }
+                v.push(x.clone());
+                // and with zeros below it
+                for b in x.iter_mut().take(k * g) {
+                    *b = 0;
+                }
+                v.push(x);
+            }
+        }
+    }
     let bnd = gen::boundary(n);
+    let count = count.max(v.len() + 4);
     while v.len() < count {
         v.push(gen::any(r, n, &bnd));
     }
